@@ -212,8 +212,10 @@ def plan(tier, seed):
                     for k, tear in rng.sample(pts, min(len(pts), 25)):
                         descs.append({"w": w, "st": st, "mode": mode, "kind": "double", "k": k, "tear": tear,
                                       "k2": rng.randint(1, max(2, len(ev))), "evkind": ev[k - 1][1], "evpath": ev[k - 1][2]})
-                    for k in range(1, len(ev) + 8):
-                        descs.append({"w": w, "st": st, "mode": mode, "kind": "stale", "k": k})
+                    comparable = all(r["kind"] != "ndarray" for r in WORKLOADS[w]["roots"].values())
+                    if comparable:  # pipefunc cannot compare object-dtype ndarray inputs of two runs ("hoping for the best")
+                        for k in range(1, 2 * len(ev) + 8):
+                            descs.append({"w": w, "st": st, "mode": mode, "kind": "stale", "k": k})
     rng.shuffle(descs)
     return descs
 
@@ -279,6 +281,11 @@ def check_resume(v, desc, case, env, exp_calls, root, scratch, done, tagname, si
         res = {}
     if rc != 0 or "exc" in res:
         exc = res.get("exc", {"type": f"exit{rc}", "where": "?", "msg": ""})
+        if sigctx.startswith("stale") and exc["type"] == "ValueError" and "cannot use `cleanup=False`" in exc["msg"]:
+            # the interrupted run had not (completely) replaced an older run with other inputs: refusing to
+            # continue on that folder is the safe outcome; what must never happen is a stale value as a result
+            v.count("stale_refusals")
+            return True
         v.bad(f"resume-raises:{exc['type']}@{exc['where']}/{sigctx}", f"resumed run raised {exc['type']}: {exc['msg']}", **w)
         return False
     ok = True
